@@ -128,7 +128,9 @@ theorem merge_core (vars : Array Var) (cons : Array Con) (n : Nat) (ia : Array N
     fun u hu => shiftVars_offs _ _ _ _ _ hu
   refine
     { outs_sound := ?_, outs_complete := ?_, ins_sound := ?_, ins_complete := ?_, tight := ?_,
-      bridge := ?_, conn := ?_, fresh := ?_, cover := ?_, inact_lt := ?_, flags := ?_ }
+      bridge := ?_, conn := ?_, fresh := ?_, cover := ?_, inact_lt := ?_, flags := ?_,
+      outs_nodup := fun u => by rw [shiftVars_outs]; exact h.outs_nodup u,
+      ins_nodup := fun u => by rw [shiftVars_ins]; exact h.ins_nodup u }
   · intro u j hj
     rw [shiftVars_outs] at hj
     obtain ⟨h1, h2⟩ := h.outs_sound u j hj
